@@ -165,7 +165,7 @@ PROPS.update({
                     {"stream": "alias", "ops": ["sqrt", "cbrt"], "n": {"quick": 3000, "thorough": 40000}, "projections": []}],
         "projections": ["value", "repr", "flags", "err", "iter"],
         "oracle_tags": ["C11"],
-        "explanation": "Sqrt: correctness theorem for every operand (C11_sqrt_correct_partial: Newton error analysis over the reals + model loop + settling step + roundings = specSqrt; side condition workp+6 <= 100000+e/2 proved necessary by C11_sqrt_sys). Also proved: integer-root oracles, specSqrt is the half-even nearest multiple of the quantum stated on squares, the Cbrt ulp test, perfect-cube detection, loop termination, special operands. NOT proved: no Inexact on exactly representable roots; Cbrt one-ulp accuracy. The executable models of Sqrt and Cbrt are correspondence-checked and every generated case is judged by the proved oracles; generators aim at roots next to rounding boundaries",
+        "explanation": "Sqrt: correctness theorem for every operand incl. Inexact iff not exactly representable (C11_sqrt_correct_partial, C11_sqrt_inexact_iff; side condition proved necessary by C11_sqrt_sys). Cbrt: within one ulp and exact on perfect cubes whenever the call returns without error (C11_cbrt_within_ulp, C11_cbrt_exact). Also: integer-root oracles, specSqrt is the half-even nearest multiple stated on squares, the Cbrt ulp test, perfect-cube detection, loop termination, special operands. NOT proved: that Cbrt always returns without error (convergence within Precision+11 rounds). The executable models are correspondence-checked (incl. the Sqrt iterate at an observation point) and every generated case is judged by the proved oracles",
     },
     "C13": {
         "level": "proof",
